@@ -15,7 +15,7 @@ RULE = (
     "command after the initial move; distinct = distinct (program, text) digest."
 )
 BUDGET = {"quick": 20000, "thorough": 600000}
-TIME_CAP = {"quick": 60, "thorough": 1500}
+TIME_CAP = {"quick": 240, "thorough": 1500}
 ANCHORS = [
     "SVGLexicalParser.parse", "SVGLexicalParser._command", "SVGLexicalParser._more", "SVGLexicalParser._number",
     "SVGLexicalParser._flag", "SVGLexicalParser._coord", "SVGLexicalParser._rcoord", "Path.move", "Path.line", "Path.vertical",
